@@ -4,6 +4,9 @@
 #include <signal.h>
 #include <sys/mman.h>
 #include <sys/personality.h>
+#include <sys/prctl.h>
+#include <sys/signalfd.h>
+#include <sys/socket.h>
 #include <sys/stat.h>
 #include <sys/syscall.h>
 #include <sys/time.h>
@@ -163,37 +166,155 @@ static Shm *alloc_shm() {
     return (Shm *)p;
 }
 
+// ---------------------------------------------------------------- fork server ("zygote")
+// Every run executes in a grandchild forked from one pristine process image that is created at the very start of the
+// program, before any argument is parsed and before any plan is read, and that never touches its heap again. Whatever
+// process asks for a run (batch worker, supervisor during the gate and the minimisation, a stand-alone replay), the run
+// therefore starts from the same heap and the same stacks, and even a program that reads memory it does not own (stray
+// pointers, stale stack contents) behaves the same way every time.
+namespace {
+constexpr int kSlots = 40;
+constexpr int kZygotes = 4;  // identical images, each serving every fourth slot (fork() is the serial part of a run)
+constexpr size_t kPlanCap = 16u << 20;
+struct Slot { int cli = -1, srv = -1; Shm *shm = nullptr; int errfd = -1; char *plan = nullptr; };
+Slot g_slots[kSlots];
+int g_slot = 0;      // slot of this process: 0 = supervisor / stand-alone, w + 1 = batch worker w
+pid_t g_zygote = -1;
+struct Req { uint32_t plan_len; uint8_t verbose, keep_stdout; uint8_t pad[2]; };
+struct Rep { int32_t kind, value; };  // kind 1: pid of the run, kind 2: its wait status
+}  // namespace
+
+[[noreturn]] static void zygote_child(Engine &e, Slot &s, const Req &rq, int sfd) {
+    sigset_t m;
+    sigemptyset(&m);
+    sigaddset(&m, SIGCHLD);
+    sigprocmask(SIG_UNBLOCK, &m, nullptr);
+    close(sfd);
+    g_shm = s.shm;
+    dup2(s.errfd, 2);
+    if (!rq.keep_stdout) { int dn = open("/dev/null", O_WRONLY); dup2(dn, 1); }
+    std::string plan(s.plan, rq.plan_len);
+    e.exec(plan, rq.verbose != 0);
+    _exit(3);  // exec must not return
+}
+
+[[noreturn]] static void zygote_loop(Engine &e, int zid) {
+    prctl(PR_SET_PDEATHSIG, SIGKILL);
+    for (auto &s : g_slots) { close(s.cli); s.cli = -1; }
+    for (int i = 0; i < kSlots; i++) if (i % kZygotes != zid) { close(g_slots[i].srv); g_slots[i].srv = -1; }  // served by a sibling
+    sigset_t m;
+    sigemptyset(&m);
+    sigaddset(&m, SIGCHLD);
+    sigprocmask(SIG_BLOCK, &m, nullptr);
+    int sfd = signalfd(-1, &m, SFD_NONBLOCK);
+    pid_t running[kSlots] = {0};
+    for (;;) {
+        struct pollfd pf[kSlots + 1];
+        for (int i = 0; i < kSlots; i++) pf[i] = {g_slots[i].srv, POLLIN, 0};
+        pf[kSlots] = {sfd, POLLIN, 0};
+        int n = poll(pf, kSlots + 1, 2000);
+        if (n < 0 && errno != EINTR) _exit(0);
+        if (getppid() == 1) _exit(0);
+        // reap finished runs (also on time-out of the poll, in case a signal was coalesced)
+        { struct signalfd_siginfo si; while (read(sfd, &si, sizeof si) == (ssize_t)sizeof si) {} }
+        for (;;) {
+            int st = 0;
+            pid_t p = waitpid(-1, &st, WNOHANG);
+            if (p <= 0) break;
+            for (int i = 0; i < kSlots; i++)
+                if (running[i] == p) {
+                    running[i] = 0;
+                    Rep rp{2, st};
+                    if (g_slots[i].srv >= 0 && send(g_slots[i].srv, &rp, sizeof rp, MSG_NOSIGNAL) < 0) {}
+                }
+        }
+        if (n <= 0) continue;
+        bool any_open = false;
+        for (int i = 0; i < kSlots; i++) {
+            if (g_slots[i].srv < 0) continue;
+            if (pf[i].revents & POLLIN) {
+                Req rq;
+                ssize_t k = recv(g_slots[i].srv, &rq, sizeof rq, MSG_DONTWAIT);
+                if (k == 0) { close(g_slots[i].srv); g_slots[i].srv = -1; continue; }
+                if (k != (ssize_t)sizeof rq || running[i]) { any_open = true; continue; }
+                pid_t c = fork();
+                if (c == 0) zygote_child(e, g_slots[i], rq, sfd);
+                running[i] = c;
+                Rep rp{1, (int32_t)c};
+                if (send(g_slots[i].srv, &rp, sizeof rp, MSG_NOSIGNAL) < 0) {}
+            } else if (pf[i].revents & (POLLHUP | POLLERR)) {
+                close(g_slots[i].srv);
+                g_slots[i].srv = -1;
+                continue;
+            }
+            any_open = true;
+        }
+        if (!any_open) _exit(0);
+    }
+}
+
+static void zygote_start(Engine &e) {
+    if (g_zygote > 0) return;
+    for (auto &s : g_slots) {
+        int sv[2];
+        if (socketpair(AF_UNIX, SOCK_SEQPACKET | SOCK_CLOEXEC, 0, sv)) { perror("socketpair"); _Exit(2); }
+        s.cli = sv[0]; s.srv = sv[1];
+        s.shm = alloc_shm();
+        s.errfd = (int)syscall(SYS_memfd_create, "simerr", 0);
+        void *p = mmap(nullptr, kPlanCap, PROT_READ | PROT_WRITE, MAP_SHARED | MAP_ANONYMOUS | MAP_NORESERVE, -1, 0);
+        if (p == MAP_FAILED || s.errfd < 0) { perror("zygote slot"); _Exit(2); }
+        s.plan = (char *)p;
+    }
+    fflush(nullptr);
+    for (int zid = 0; zid < kZygotes; zid++) {
+        pid_t z = fork();
+        if (z < 0) { perror("fork"); _Exit(2); }
+        if (z == 0) zygote_loop(e, zid);
+        g_zygote = z;
+    }
+    for (auto &s : g_slots) { close(s.srv); s.srv = -1; }
+}
+
 RunResult run_plan_in_child(Engine &e, const std::string &plan, bool verbose, int log_fd) {
-    static Shm *shm = nullptr;
-    static int errfd = -1;
-    if (!shm) shm = alloc_shm();
-    if (errfd < 0) errfd = (int)syscall(SYS_memfd_create, "simerr", 0);
+    Slot &sl = g_slots[g_slot];
+    Shm *shm = sl.shm;
+    int errfd = sl.errfd;
+    if (g_zygote <= 0 || !shm || plan.size() > kPlanCap) {
+        RunResult r;
+        r.status = 2; r.sig = "harness"; r.detail = g_zygote <= 0 ? "fork server not running" : "plan larger than the plan buffer";
+        return r;
+    }
     memset((void *)shm, 0, offsetof(Shm, result) + 8);
     if (ftruncate(errfd, 0) != 0) {}
     lseek(errfd, 0, SEEK_SET);
     fflush(nullptr);
-    pid_t pid = fork();
-    if (pid < 0) { perror("fork"); _Exit(2); }
-    if (pid == 0) {
-        g_shm = shm;
-        dup2(errfd, 2);
-        if (log_fd >= 0) dup2(log_fd, 1);
-        else if (!verbose) { int dn = open("/dev/null", O_WRONLY); dup2(dn, 1); }
-        e.exec(plan, verbose);
-        // exec must not return
-        _exit(3);
-    }
+    memcpy(sl.plan, plan.data(), plan.size());
+    Req rq{(uint32_t)plan.size(), (uint8_t)verbose, (uint8_t)(log_fd >= 0 || verbose), {0, 0}};
+    Rep rp{0, 0};
+    pid_t pid = -1;
     int st = 0;
-    double t0 = now_s();
-    bool timed_out = false;
-    for (;;) {
-        pid_t w = waitpid(pid, &st, WNOHANG);
-        if (w == pid) break;
-        if (w < 0 && errno != EINTR) break;
-        if (now_s() - t0 > e.run_timeout_s) { kill(pid, SIGKILL); waitpid(pid, &st, 0); timed_out = true; break; }
-        // short sleep: runs take ~ms; poll at 100 us .. 2 ms
-        double el = now_s() - t0;
-        usleep(el < 0.002 ? 50 : el < 0.05 ? 300 : 3000);
+    bool timed_out = false, server_gone = false;
+    if (send(sl.cli, &rq, sizeof rq, MSG_NOSIGNAL) != (ssize_t)sizeof rq || recv(sl.cli, &rp, sizeof rp, 0) != (ssize_t)sizeof rp || rp.kind != 1) server_gone = true;
+    else {
+        pid = rp.value;
+        double t0 = now_s();
+        for (;;) {
+            struct pollfd pf = {sl.cli, POLLIN, 0};
+            int n = poll(&pf, 1, 100);
+            if (n > 0) {
+                if (recv(sl.cli, &rp, sizeof rp, 0) != (ssize_t)sizeof rp) { server_gone = true; break; }
+                if (rp.kind == 2) { st = rp.value; break; }
+                continue;
+            }
+            if (n < 0 && errno != EINTR) { server_gone = true; break; }
+            if (!timed_out && now_s() - t0 > e.run_timeout_s) { kill(pid, SIGKILL); timed_out = true; }
+            if (timed_out && now_s() - t0 > e.run_timeout_s + 30) { server_gone = true; break; }
+        }
+    }
+    if (server_gone) {
+        RunResult r;
+        r.status = 2; r.sig = "harness"; r.detail = "fork server did not answer";
+        return r;
     }
     if (!timed_out && WIFEXITED(st) && WEXITSTATUS(st) == 0 && shm->finished)
         return RunResult::parse(std::string(shm->result, shm->result_len));
@@ -388,6 +509,10 @@ struct WorkerOut { int fd; std::string buf; bool open; };
 
 int driver_main(int argc, char **argv, Engine &e) {
     ensure_no_aslr(argc, argv);
+    // the process image every run starts from is fixed here, before anything depends on the command line
+    if (!g_symtab.load()) { fprintf(stderr, "HARNESS: cannot load own symbol table\n"); return 2; }
+    Tasks::prepare_stacks();
+    zygote_start(e);
     std::string mode, planfile, tier = "quick", evidence, known_path, replay_dir = "replays", only;
     uint64_t seed = 20240601, idx = 0, runs = 0;
     int workers = 16;
@@ -414,9 +539,6 @@ int driver_main(int argc, char **argv, Engine &e) {
         else { fprintf(stderr, "unknown argument %s\n", a.c_str()); return 2; }
     }
     bool thorough = tier == "thorough";
-    if (!g_symtab.load()) { fprintf(stderr, "HARNESS: cannot load own symbol table\n"); return 2; }
-    Tasks::prepare_stacks();
-
     if (mode == "--gen") {
         fputs(e.gen(e.property, seed, idx, thorough).c_str(), stdout);
         return 0;
@@ -439,7 +561,7 @@ int driver_main(int argc, char **argv, Engine &e) {
         // every run twice (different processes); digests must agree
         if (!runs) runs = 2000;
         uint64_t bad = 0;
-        int W = workers;
+        int W = std::min(workers, kSlots - 1);
         std::vector<pid_t> pids;
         std::vector<int> fds;
         for (int w = 0; w < W; w++) {
@@ -448,6 +570,7 @@ int driver_main(int argc, char **argv, Engine &e) {
             pid_t p = fork();
             if (p == 0) {
                 close(pfd[0]);
+                g_slot = 1 + w;
                 uint64_t mism = 0;
                 for (uint64_t i = w; i < runs; i += W) {
                     std::string plan = e.gen(e.property, seed, i, thorough);
@@ -481,6 +604,7 @@ int driver_main(int argc, char **argv, Engine &e) {
     if (!runs) runs = thorough ? e.thorough_runs : e.quick_runs;
     if (wall_cap <= 0) wall_cap = thorough ? e.thorough_wall_cap : e.quick_wall_cap;
     if (workers < 1) workers = 1;
+    if (workers > kSlots - 1) workers = kSlots - 1;
     if ((uint64_t)workers > runs) workers = (int)runs;
     double t_start = now_s();
     std::vector<WorkerOut> outs;
@@ -493,6 +617,7 @@ int driver_main(int argc, char **argv, Engine &e) {
         if (p < 0) { perror("fork"); return 2; }
         if (p == 0) {
             close(pfd[0]);
+            g_slot = 1 + w;
             for (auto &o : outs) close(o.fd);
             FILE *out = fdopen(pfd[1], "w");
             for (uint64_t i = w; i < runs; i += workers) {
@@ -646,6 +771,8 @@ int driver_main(int argc, char **argv, Engine &e) {
         reported++;
         if (exit_code == 0) exit_code = 1;
     }
+    // a violation that passed the gate and replayed from its file in a fresh process stands, whatever else went wrong in the batch
+    if (!violations_out.empty()) exit_code = 1;
     double wall = now_s() - t_start;
 
     if (!cov_dump.empty()) {
